@@ -44,7 +44,7 @@ PROPS = {
                  "every alphabet index < 64, length arithmetic, decodeMap inverts the alphabet, the 64-bit/32-bit/per-quantum decode paths compute the same bytes, "
                  "Decode(Encode(x)) = x on the faithful three-loop model, corrupt/strict rejections at quantum level, the exported encodings' alphabets and no-padding (facts regenerated from source). "
                  "The shift/mask expressions are regenerated from the Go source on every run; the loop structure is hand-modelled and tied by differential runs.",
-        "note": "Trusted: gogen's expression translator; loop structure of Encode/Decode tied by correspondence only; malformed-text characterisation beyond the quantum level is sampled, not proved.",
+        "note": "Decode is characterised for ALL texts (Props/C16Decode.lean): decode_eq_ref — the model's Decode (three paths, padding, newline skipping, strict mode) equals an independent declarative reference decoder (Spec/Base64Ref.lean) in result bytes AND error offset; accepted_is_canonical_or_tolerated, never_silent_garbage, malformed_rejected, nothing_after_padding, incomplete_rejected, decode_never_panics. Trusted: gogen's expression translator; the loop structure of the hand-written Encode/Decode model is tied to Go by correspondence.",
         "rule": "b64: EncodedLen/DecodedLen for n ≤ 300; all 256 one-byte tails, two-byte tails (all 65536 at thorough), 2^16 (quick) / 2^21 (thorough) random three-byte groups, "
                 "random strings up to 4096 bytes in four modes decoded into buffers of five sizes (8-symbol, 4-symbol and quantum paths counted), random symbol quanta with injected bad symbols/padding/newlines, single edits of valid encodings; "
                 "Go vs Lean model, plus Go vs an independent bit-level reference encoder and Decode∘Encode = id directly on Go; non-trivial/distinct = distinct one-/two-byte tails and random strings",
